@@ -17,7 +17,10 @@ CHECKS = {
               "exhaustively against the labelled dictionary monitor DictMon (invariant MonOk, DictAbstraction, "
               "CacheCoherent, RefsCoherent); behaviours simulated from it and random histories over prefix-related "
               "names are replayed on FilesystemStorageBackend (+-cache, +-separate metadata path) and "
-              "MemoryStorageBackend, and every recorded event is validated by TLC against DictMon (TraceDict)."),
+              "MemoryStorageBackend, and every recorded event is validated by TLC against DictMon (TraceDict). Custom metadata is "
+              "modelled and driven in both storage forms (metadata store / next to the result object); the open finding on the "
+              "second form is the constant KF_MetaByObject of the spec (counterexample configuration) and a signature in "
+              "known_findings.json."),
         ref="DESIGN.md 5/C05",
         technique="TLA+ mechanism spec refined against a labelled dictionary monitor (TLC) + TLC trace validation of replayed/random real executions"),
     "C06": dict(
@@ -39,8 +42,9 @@ CHECKS = {
     "C19": dict(
         engine="store",
         text=("Store.tla has a read-only mode (Reopen(TRUE)); action property ReadOnlyWritesNothing and the RoMon "
-              "monitor are checked exhaustively; pre-populated real stores are reopened read-only (flag by argument "
-              "or config, +-cache, +-separate metadata) and null storage is driven with random histories; per event "
+              "monitor are checked exhaustively; pre-populated real stores are reopened read-only (flag by argument, "
+              "by configuration, by argument over a configuration that says read-write; +-cache, +-separate metadata; "
+              "metadata writes in both forms) and null storage is driven with random histories; per event "
               "the mutating audit events under the storage paths and the tree digest are logged and TLC validates "
               "against RoMon (TraceRo)."),
         ref="DESIGN.md 5/C19",
@@ -55,37 +59,45 @@ CHECKS["C09"] = dict(
           "termination under fairness); real threads run on real backends under a deterministic scheduler "
           "(sys.settrace, cooperative locks): all schedules with <=1 preemption at line granularity in runner and cache "
           "code plus random / sampled 2-preemption / 3-thread schedules; each execution is validated by TLC against "
-          "the SingleFlight monitor (TraceSingleFlight)."),
+          "the SingleFlight monitor (TraceSingleFlight). A long-body scenario (140 other invocations while the first caller's "
+          "invocation is in progress) covers lock-table and cache churn under an open invocation."),
     ref="DESIGN.md 5/C09",
     technique="PlusCal/TLA+ model of runner+cache interleavings (TLC) + systematic schedule enumeration of real threads validated by a TLC monitor")
 
 CHECKS["C08"] = dict(
     engine="faults",
-    text=("FsWrite.tla models the write protocol of a memoizing call (mkdir, object, pointer created/truncated, pointer "
-          "written; data then memento), crashes before every operation, crashes and I/O errors in the middle of pointer "
-          "writes, I/O errors that abandon memoize, and the recovery reads of up to 4 later calls of two functions sharing "
-          "a content key; TLC checks Recovers / PointerImpliesObject / NoPoisonedMemento exhaustively (and finds the "
-          "pinned-commit defect with FixedReader=FALSE). On the real code every mutating filesystem operation of seven "
-          "scenarios is hit with every fault variant (single faults exhaustive, double faults sampled in quick and "
-          "exhaustive in thorough), the process is 'restarted' and follow-up calls are validated by TLC against CrashSafeMon."),
+    text=("FsWrite.tla models the write protocol of a memoizing call (mkdir, open / write / close of the object, pointer "
+          "created/truncated, written, closed; data then memento), object files that exist but are incomplete, crashes before "
+          "every operation, crashes and I/O errors in the middle of a pointer's bytes (at the write or at the close), I/O errors "
+          "that abandon memoize, and the recovery reads of up to 4 later calls of two functions sharing a content key; TLC checks "
+          "Recovers / NeverRaises / PointerImpliesObject / NoPoisonedMemento exhaustively (and finds the pinned-commit defect with "
+          "FixedReader=FALSE and the raising call of the LinkBeforeClose design variant). On the real code every mutating "
+          "filesystem operation of seven scenarios is hit with every fault variant in two file modes (write-through: faults at "
+          "write(); buffered: faults at close()), truncation after 1/2, 3/4, all-but-one byte (single faults exhaustive, double "
+          "faults sampled in quick and exhaustive in thorough), the process is 'restarted', follow-up calls and a whole-store "
+          "content-key scan are validated by TLC against CrashSafeMon, and the recorded file-system steps of the runs of f / g are "
+          "validated against FsWrite.tla itself (TraceFsWrite: mechanism-level trace validation)."),
     ref="DESIGN.md 5/C08", category="fault_enumeration",
-    technique="TLA+ crash/recovery model (TLC) + exhaustive fault enumeration on the real filesystem backend validated by a TLC monitor")
+    technique="TLA+ crash/recovery model (TLC) + exhaustive fault enumeration on the real filesystem backend validated by a TLC monitor + TLC trace validation of the recorded file-system steps against the mechanism spec")
 
 _RUNNER = ("Runner.tla (explicit-stack interpreter of ProgSem programs: store look-ups, batch pre-check, frames, "
            "propagate_dependencies on value and exception paths, context inheritance/override) is model-checked against the "
            "reference semantics ProgSem.tla through the lock-step monitor RunnerMon (MonOk, ProvenanceExact, StackDiscipline); "
            "random well-founded programs are emitted as real memento modules, random root histories (calls with modifiers and "
-           "context, call_batch/map_over_range, forget, forget_all) run on filesystem / filesystem+cache / memory backends and "
+           "context, call_batch/map_over_range with lists and one-shot iterables, forget, forget_all, bodies returning values that cannot "
+           "be stored; for C02/C10 also root calls made at the same time by 2-3 threads under the deterministic scheduler) run on "
+           "filesystem / filesystem+cache / memory backends and "
            "TLC validates every event (outcome, bodies run, full memento projection) against RunnerMon (TraceRunner); ")
 CHECKS["C02"] = dict(engine="runner", ref="DESIGN.md 5/C02",
     text=_RUNNER + "clauses: outcome = un-memoized outcome, bodies run exactly for unmemoized calls, store holds exactly the expected "
     "calls, recorded result type. Value domain: every term of a typed result universe (scalars, dates, containers, numpy, pandas, "
-    "partitions, exception classes) x 4 backend/cache configurations x 3 modifiers through Call,Call,Memento,Forget,Call,Call validated "
-    "against TransparentMon (result-type classification defined in TLA+).",
+    "partitions, exception classes incl. nested ones) x 5 backend/cache configurations (one with a budget every array exceeds, the caller "
+    "keeping the value) x 3 modifiers through two operation patterns validated against TransparentMon (result-type classification defined in TLA+).",
     technique="TLA+ runner mechanism spec refined against denotational semantics (TLC) + TLC trace validation of generated programs and typed value universe")
 CHECKS["C10"] = dict(engine="runner", ref="DESIGN.md 5/C10",
     text=_RUNNER + "clauses: invocations = direct calls in order with context and argument, resources = handles obtained, dependency set = "
-    "transitive closure incl. self, for every memento present after every operation (so for every memoized-before subset reached).",
+    "transitive closure incl. self, for every memento present after every operation (so for every memoized-before subset reached), "
+    "also after concurrent root calls (Par: provenance as after a sequential execution).",
     technique="TLA+ runner mechanism spec with ProvenanceExact invariant (TLC) + TLC trace validation of memento projections of generated programs")
 CHECKS["C15"] = dict(engine="runner", ref="DESIGN.md 5/C15",
     text=_RUNNER + "clauses: batch result list (or first raised exception) = element-wise denotations in order, bodies run once per "
@@ -98,8 +110,9 @@ CHECKS["C16"] = dict(engine="runner", ref="DESIGN.md 5/C16",
     technique="TLA+ runner mechanism spec with context propagation (TLC) + TLC trace validation of context-carrying call trees")
 CHECKS["C17"] = dict(engine="partition", ref="DESIGN.md 5/C17",
     text=("Partition.tla defines Stored(chain, i) as the overlay of own entries over the parent's stored entries and TLC checks the laws "
-          "(keys are the union, own wins, parent-only remain, value comes from the nearest level) over all chains of 3 keys and length <= 3; "
-          "merge chains of real partition-returning memento functions (in-memory and on-disk staging) are built through four plans "
+          "(keys are the union, own wins, parent-only remain, value comes from the nearest level) over all chains of 3 keys and length <= 3 "
+          "with None values; merge chains, trees (several partitions on one parent object) and pass-through levels of real "
+          "partition-returning memento functions (in-memory and on-disk staging) are built through four plans "
           "(parents computed in the same run / cached / read back from disk / mixed) on three backends; every returned object (first "
           "call, second call, fresh backend) is probed key by key and validated by TLC against OverlayMon."),
     technique="TLA+ reference definition of overlay with laws checked by TLC + TLC trace validation of probed partition objects")
@@ -110,7 +123,9 @@ _VER = ("Version.tla models function objects, module bindings (incl. aliases), t
         "(redefinitions incl. defaults/refs/kind swaps, variable changes, alias rebinding, unregistered instances, queries, calls, "
         "new processes) up to the bound, and exhibits each pinned-commit deviation (KF_DefaultsNotHashed, KF_AdoptCached, "
         "KF_AliasBlind) as a counterexample. Generated programs (harness/vprogs.py) are written as real packages and executed by "
-        "real interpreter processes sharing one store; ")
+        "real interpreter processes sharing one store (program features: helpers in the package __init__, same-named static methods, "
+        "factory-made helpers, lambdas, late-filled tables, once / twice wrapped references, decorated plain helpers, references in nine "
+        "syntactic contexts); every run contains one directed history per kind of edit besides the random ones; ")
 CHECKS["C01"] = dict(engine="version", ref="DESIGN.md 5/C01",
     text=_VER + "edit histories (slots body/const/default/kw-default/nested-code/set/tuple constants, call edges, variables rebinding and "
     "in-place mutation, explicit versions, alias rebinding) delivered cross-process or in-process; every memoized call is compared with the "
@@ -128,8 +143,9 @@ CHECKS["C13"] = dict(engine="version", ref="DESIGN.md 5/C13",
 CHECKS["C14"] = dict(engine="version", ref="DESIGN.md 5/C14",
     text=_VER + "ClosureMon defines reachability, direct references and first-memento frontier on the logged reference graph in TLA+; "
     "dependencies() of every memento function of all three-node graphs (kinds, arbitrary edges incl. cycles, four reference forms) and of "
-    "random larger graphs is validated; acyclic programs with hidden dynamic calls are called plainly and through modifiers and must raise "
-    "UndeclaredDependencyError exactly when an executed function calls outside its static closure.",
+    "random larger graphs is validated; acyclic programs with hidden dynamic calls are called plainly and through one to three chained "
+    "modifiers and must raise UndeclaredDependencyError exactly when an executed function calls outside its static closure, a function "
+    "handed over as an argument (by call or by partial) being allowed in that invocation only.",
     technique="TLA+ reachability definitions evaluated by TLC on logged reference graphs (trace validation) + enforcement calls")
 
 CHECKS["C04"] = dict(engine="argkey", ref="DESIGN.md 5/C04",
@@ -152,17 +168,20 @@ CHECKS["C12"] = dict(engine="names", ref="DESIGN.md 5/C12",
           "token pools with ':', '::', '#', '@', '=', '+', '-', '.', '_'; real functions with adversarial and random explicit versions "
           "in the default and two named clusters are parsed (NamesMon compares with Parts computed by TLC), memoized and found again "
           "by call, memento(), list_mementos() and list_memoized_functions() on filesystem and memory backends; caller/callee "
-          "evolutions (callee edited, removed, re-clustered; default and named clusters) run across two interpreter processes and "
-          "must be served, readable, listable, with vanished versions reported as external."),
+          "evolutions (callee edited, removed, re-clustered in every direction; default and named clusters; automatic and adversarial "
+          "explicit callee versions; a function-valued argument that vanishes) run across two interpreter processes and "
+          "must be served, readable, listable, with vanished versions reported as external under the name that was called."),
     technique="TLA+ reference definition of qualified-name grammar (law checked by TLC) + TLC trace validation of parses, look-ups and cross-process evolutions")
 
 CHECKS["C18"] = dict(engine="config", ref="DESIGN.md 5/C18",
     text=("ConfigDef.tla defines Effective (explicit argument over configuration over default), Resolve (first repository in priority "
           "order or nothing) and Behaviour (the observable effect of every option); TLC checks the override / honoured / dump-load / "
-          "first-repository laws over the option matrix; random and single-option environments are realised as constructor arguments, "
+          "first-repository laws over the option matrix; random, single-option and option-against-different-argument environments "
+          "(clusters possibly registered under a key that is not their name) and live environments extended by append_repo / "
+          "prepend_repo after look-ups are realised as constructor arguments, "
           "inline dict, JSON files, YAML template with parameter and Environment(env.to_dict()), every cluster name is probed "
-          "behaviourally (executes, stored, where files appear, served after files are wiped, forget rejected, which repository's "
-          "store received the data) and TLC validates each probe against ConfigMon."),
+          "behaviourally (executes, stored, in which configured directory result objects and mementos appear, served after files are "
+          "wiped, forget rejected, which repository's store received the data) and TLC validates each probe against ConfigMon."),
     technique="TLA+ reference definition of option resolution and its behavioural meaning (laws checked by TLC) + TLC trace validation of behavioural probes")
 
 NOT_YET = {
